@@ -47,6 +47,8 @@ M  mcmc:      GPRegressionMCMC: for every retained sample i, state i must report
 H  history:   GaussianProcessRegression through fit / recompute_states sequences (grown, replaced, re-labelled
               data; all or some optimiser restarts made to raise): after every call the state holds exactly
               the data passed, and stages K, J, P hold for it under the parameters reported after the call.
+   (all stages) in 40 % of the cases the caller's arrays are overwritten in place right after each call that
+              received them; states are documented as immutable, so every later clause must still hold.
 I  incremental: update() / sample_and_update() / expand_fantasies() chains; dense check of intermediate
               and final states; comparison with the state recomputed from scratch (tolerance widened by
               the first-order effect of the kernel round-off band and of the documented regulariser
@@ -143,6 +145,12 @@ ASSUMPTIONS = [
     "for those values)",
     "sample_and_update: with a real numpy RandomState the harness replays a twin generator: the m targets must use "
     "m consecutive draws and the generator must have advanced by exactly m draws (also with mean_impute_mask)",
+    "immutability: in 40 % of the cases every ndarray handed to the library (features, targets, noise variance, "
+    "tuple covariance scale of a state constructor; feature row and target of update / sample_and_update and the "
+    "returned target; data['features'] / data['targets'] of fit / recompute_states) is overwritten in place by the "
+    "harness right after the call (other data / rescaling / zeros); all references are computed from private "
+    "copies of the original data, so a state that kept a reference instead of a copy fails the ordinary clauses, "
+    "and state.features must still equal the private copy",
     "FabolasKernelFunction factors are generated only with INCLUDE_FABOLAS (its forward() ignores u2 and u3: "
     "candidate finding C08-F2)",
     "states whose system matrix has 8 eps cond(A) > 1e-3 are inconclusive for the value clauses",
@@ -247,12 +255,15 @@ def floors(tier):
         "cell:kind:gpr": 100, "cell:kind:warped": 100, "cell:kind:product": 45, "cell:kind:range": 50,
         "cell:kind:expdecay": 50,
         "cell:d_ge_7": 150, "cell:ard_d_ge_11": 50, "cell:onehot_blocks": 80,
-        "cell:kind:mcmc": 100, "mcmc:states_checked": 350, "cell:mcmc_ge2_distinct_samples": 70,
+        "cell:kind:mcmc": 100, "mcmc:states_checked": 350, "cell:mcmc_ge2_distinct_samples": 60,
         "decided:mcmc_state_params": 350, "mcmc:recompute_states": 60, "mcmc:recompute_fantasies": 20,
         "mcmc:assigned_samples": 30, "decided:sample_marginals": 200, "decided:mcmc_model_predict": 100,
         "cell:expdecay_delta:free": 20, "cell:expdecay_delta:fixed_0": 8, "cell:expdecay_delta:fixed_1": 12,
         "cell:expdecay_delta:fixed_interior": 35, "cell:expdecay_delta_fixed_interior_and_mean_nonzero": 30,
         "cell:expdecay_mean_nonzero": 90, "decided:expdecay_mean_function": 45,
+        "cell:caller_arrays_overwritten": 350, "cell:caller_arrays_overwritten_chain": 160,
+        "decided:state_keeps_own_copy_of_features": 1500, "scribble:base_state": 170, "scribble:chain_step": 950,
+        "scribble:scratch_state": 300, "scribble:model_call": 170,
         "cell:kind:history": 100, "decided:state_holds_data_passed": 800, "decided:states_after_fit": 80,
         "decided:states_after_recompute_states": 45, "decided:states_after_refit_with_all_restarts_failed": 70,
         "decided:states_after_refit_with_all_restarts_failed:data_changed": 55,
@@ -311,6 +322,24 @@ class ScriptedNormal:
             self.bad = True
             return np.zeros(size)
         return a.copy()
+
+
+def _scribble(o, rng, *arrays):
+    """The caller re-uses its buffers: overwrite, in place, the arrays that were handed to the library (another
+    data set / a rescaling / zeros). A posterior state is documented as immutable, so nothing it returns later
+    may depend on this."""
+    for a in arrays:
+        if not isinstance(a, np.ndarray) or a.size == 0 or not a.flags.writeable:
+            continue
+        u = rng.random()
+        if u < 0.5:
+            a[...] = rng.uniform(size=a.shape)
+        elif u < 0.8:
+            a *= 3.7
+            a += 0.25
+        else:
+            a[...] = 0.0
+        o.count("scribble:arrays")
 
 
 class Raised(Exception):
@@ -1661,7 +1690,16 @@ def _run_mcmc(spec, o, sig):
                   random_seed=int(rng.integers(0, 2 ** 31 - 1)))
     tg = Y[:, 0].copy() if rng.random() < 0.5 else Y.copy()
     # fitting (slice sampling) is not what the property constrains: a sampler failure is inconclusive
-    _call(o, "GPRegressionMCMC.fit", model.fit, {"features": X.copy(), "targets": tg}, _trusted=False)
+    scrib = bool(spec.get("scribble", rng.random() < 0.4))
+
+    def model_call(api, fn, Xd, Yd):
+        data = {"features": np.array(Xd, copy=True), "targets": np.array(Yd, copy=True)}
+        _call(o, api, fn, data, _trusted=(api != "GPRegressionMCMC.fit"))
+        if scrib:
+            _scribble(o, rng, data["features"], data["targets"])
+            o.count("scribble:model_call")
+
+    model_call("GPRegressionMCMC.fit", model.fit, X, tg)
     o.ev("mcmc", n, d, n_samples, n_burnin, n_thinning, len(model.samples))
     counted = [False]
     phases = ["fit"]
@@ -1705,7 +1743,7 @@ def _run_mcmc(spec, o, sig):
         else:
             cols = (lambda nf_: (lambda i: Yn[:, i * nf_:(i + 1) * nf_]))(nf)
             o.count("mcmc:recompute_fantasies")
-        _call(o, "GPRegressionMCMC.recompute_states", model.recompute_states, {"features": Xn.copy(), "targets": Yn.copy()})
+        model_call("GPRegressionMCMC.recompute_states", model.recompute_states, Xn, Yn)
         o.count("mcmc:recompute_states")
         phases.append("recompute" + (f"_nf{nf}" if nf else ""))
         _mcmc_check_states(o, model, Xn, Xt, cols, d, ard, has_cs, rng, "recompute", FLOOR, counted)
@@ -1715,11 +1753,13 @@ def _run_mcmc(spec, o, sig):
         X3, _, Y3, n3, _, _, _, _ = gen_inputs(rng, dict(sp, n=n3, nt=nt), M)
         Xg, Yg = np.concatenate([X, X3], axis=0), np.concatenate([Y, Y3], axis=0)
         model.mcmc_config = cfg
-        _call(o, "GPRegressionMCMC.fit", model.fit, {"features": Xg.copy(), "targets": Yg.copy()}, _trusted=False)
+        model_call("GPRegressionMCMC.fit", model.fit, Xg, Yg)
         o.count("mcmc:refit_grown_data")
         phases.append("refit")
         if len(model.samples) > 0:
             _mcmc_check_states(o, model, Xg, Xt, lambda i: Yg, d, ard, has_cs, rng, "refit", FLOOR, counted)
+    if counted[0] and scrib:
+        o.count("cell:caller_arrays_overwritten")
     if counted[0]:
         o.count("cell:kind:mcmc")
         if distinct >= 2:
@@ -1792,6 +1832,7 @@ def _run_history(spec, o, sig):
                   optimization_config=cfg, random_seed=int(rng.integers(0, 2 ** 31 - 1)),
                   fit_reset_params=bool(rng.random() < 0.5))
     n_calls = int(spec.get("calls", rng.integers(2, 5)))
+    scrib = bool(spec.get("scribble", rng.random() < 0.4))
     X = Y = Xt = None
     counted = [False]
     hist = []
@@ -1831,6 +1872,9 @@ def _run_history(spec, o, sig):
             _call(o, "GaussianProcessRegression.recompute_states", model.recompute_states, data)
         hist.append(op + ":" + fault)
         o.ev("history", step, op, fault, X.shape[0])
+        if scrib:  # the caller re-uses its buffers; the reference keeps the private X, Y
+            _scribble(o, rng, data["features"], data["targets"])
+            o.count("scribble:model_call")
         # the model's current parameters (chosen by the model: get_params is the only source)
         g = model.get_params()
         ib = (np.array([_f(g[f"kernel_inv_bw{i}"]) for i in range(d)]) if ard else np.array([_f(g["kernel_inv_bw"])] * d))
@@ -1859,6 +1903,8 @@ def _run_history(spec, o, sig):
                           KS["Kxt"], KS["dT"], mstar, 1, FLOOR, extra={"step": step})
     if counted[0]:
         o.count("cell:kind:history")
+        if scrib:
+            o.count("cell:caller_arrays_overwritten")
         if ard:
             o.count("cell:ard")
     sig.update(d=d, ard=ard, has_cs=has_cs, zero=zero, n_starts=n_starts, hist=hist, n_final=int(X.shape[0]))
@@ -1957,9 +2003,38 @@ def _run(spec, o, sig):
     gp = M.gp
     if gp is not None:
         noise_arr = np.asarray(gp.likelihood.get_noise_variance(as_ndarray=True), dtype=np.float64).reshape(1).copy()
-    kern_arg = (M.kernel, np.array([cs])) if M.tuple else M.kernel
     sigma2 = M.noise
     kern = M.kernel
+    # 40 % of the cases: the caller overwrites, in place, every array it handed to the library right after the
+    # call that received it (references are kept private copies of the original data)
+    scrib = bool(spec.get("scribble", rng.random() < 0.4))
+    handed = []
+
+    def mk_kern():
+        if not M.tuple:
+            return M.kernel
+        a_ = np.array([cs])
+        handed.append(a_)
+        return (M.kernel, a_)
+
+    def hand(a_):
+        a_ = np.array(a_, copy=True)
+        handed.append(a_)
+        return a_
+
+    def after_call(what, state=None, Xpriv=None):
+        if not scrib:
+            del handed[:]
+            return
+        _scribble(o, rng, *handed)
+        del handed[:]
+        o.count("scribble:" + what)
+        if state is not None:
+            o.count("decided:state_keeps_own_copy_of_features")
+            F_ = np.asarray(state.features)
+            if F_.shape != Xpriv.shape or not np.array_equal(F_, Xpriv):
+                o.violate("immutable_state", f"state:features_changed_when_caller_overwrote_its_array:{what}",
+                          {"n": int(Xpriv.shape[0])})
 
     def kcall(A, B):
         """kernel values exactly as a state obtains them: same call, same arguments, times the tuple scale."""
@@ -2001,7 +2076,8 @@ def _run(spec, o, sig):
         Y0 = Ycur[:n0, :1] if expand else Ycur[:n0]
         Xc = X[:n0].copy()
         S = _call(o, "IncrementalUpdateGPPosteriorState", G["IncrementalUpdateGPPosteriorState"],
-                  Xc, Y0.copy(), M.mean, kern_arg, noise_arr.copy())
+                  hand(Xc), hand(Y0), M.mean, mk_kern(), hand(noise_arr))
+        after_call("base_state", S, Xc)
         Kch = kcall(Xc, Xc)  # the state's own call: kernel(features, features)
         if _exceeds(Kch - Kc[:n0, :n0], kband[:n0, :n0]):
             o.violate("kernel", "kernel:gram_of_subset_differs_from_submatrix", _wit(Kch - Kc[:n0, :n0], kband[:n0, :n0]))
@@ -2026,7 +2102,7 @@ def _run(spec, o, sig):
         for step, op in enumerate(ops):
             x = X[cur]
             x2 = x.reshape(1, -1).copy()
-            feat = x2.copy() if rng.random() < 0.7 else x.copy()
+            feat = hand(x2) if rng.random() < 0.7 else hand(x)
             oldL, oldP, oldF = S.chol_fact.tobytes(), S.pred_mat.tobytes(), np.asarray(S.features).tobytes()
             kcol = kcall(Xc, x2)  # the update's own call: kernel(features, feature)
             kself = _f(kern.diagonal(x2)) * cs
@@ -2034,7 +2110,7 @@ def _run(spec, o, sig):
                 o.violate("kernel", "kernel:column_call_differs_from_gram_column",
                           _wit(kcol - Kc[:cur, cur:cur + 1], kband[:cur, cur:cur + 1]))
             if op == "update":
-                tgt = Ycur[cur].reshape(1, -1) if rng.random() < 0.7 else Ycur[cur].copy()
+                tgt = hand(Ycur[cur].reshape(1, -1)) if rng.random() < 0.7 else hand(Ycur[cur])
                 Snew = _call(o, "update", S.update, feat, tgt)
                 o.count("chain:update")
             else:
@@ -2109,6 +2185,7 @@ def _run(spec, o, sig):
                 elif dense.ok:
                     o.inconclusive("cond_too_large")
                 Ycur[cur] = tgt_code.reshape(-1)
+                handed.append(tgt_code)  # the returned target belongs to the caller as well
             # originals are immutable
             o.count("decided:update_does_not_mutate")
             if (S.chol_fact.tobytes() != oldL or S.pred_mat.tobytes() != oldP
@@ -2117,6 +2194,7 @@ def _run(spec, o, sig):
             S = Snew
             cur += 1
             Xc = np.concatenate([Xc, x2], axis=0)
+            after_call("chain_step", S, Xc)
             Kch = np.block([[Kch, kcol], [kcol.T, np.array([[kself]])]])
             if S.num_data != cur or np.asarray(S.features).shape != (cur, M.d) or not np.array_equal(
                     np.asarray(S.features), Xc):
@@ -2138,13 +2216,14 @@ def _run(spec, o, sig):
     # ---- state recomputed from scratch on all data
     if gp is not None:
         tg = Ycur[:, 0].copy() if (m == 1 and rng.random() < 0.5) else Ycur.copy()
-        data = {"features": X.copy(), "targets": tg}
+        data = {"features": hand(X), "targets": hand(tg)}
         _call(o, "recompute_states", gp.recompute_states, data)
         Sfull = gp.states[0]
     else:
         Sfull = _call(o, "GaussProcPosteriorState", G["GaussProcPosteriorState"],
-                      X.copy(), Ycur.copy() if (m > 1 or rng.random() < 0.5) else Ycur[:, 0].copy(),
-                      M.mean, kern_arg, noise_arr.copy())
+                      hand(X), hand(Ycur) if (m > 1 or rng.random() < 0.5) else hand(Ycur[:, 0]),
+                      M.mean, mk_kern(), hand(noise_arr))
+    after_call("scratch_state", Sfull, X)
     Dfull, info = stage_chol(o, "scratch", Sfull.chol_fact, Kc, sigma2, True)
     jit_classes.append("scratch:" + info["jitter"])
     if Dfull is None:
@@ -2231,6 +2310,10 @@ def _run(spec, o, sig):
         if n_near:
             o.count("cell:near_duplicates")
         o.count("cell:kind:" + kind)
+        if scrib:
+            o.count("cell:caller_arrays_overwritten")
+            if r >= 1:
+                o.count("cell:caller_arrays_overwritten_chain")
         if getattr(M, "ed", None):
             o.count("cell:expdecay_delta:" + M.ed["delta_class"])
             if M.ed["mu"] != 0.0:
